@@ -333,6 +333,19 @@ def _check_tree(bp, J, case):
     return None
 
 
+def _bad_potential_names(bp, J):
+    """query() rebuilds the junction tree from model.copy(); the rebuilt tree may assign factors differently."""
+    jt = bp.junction_tree
+    for c in jt.nodes():
+        phi = jt.get_factors(c)
+        for v in phi.variables:
+            if list(phi.state_names[v]) != list(J.states[v]) or [type(x) for x in phi.state_names[v]] != [type(x) for x in J.states[v]]:
+                return {"key": "to_junction_tree:potential-state-names",
+                        "what": f"(tree rebuilt by query() from model.copy()) clique potential over {tuple(phi.variables)} names the states of {v!r} "
+                                f"{phi.state_names[v]} but the model's factors name them {J.states[v]}"}
+    return None
+
+
 def _prod_at(pots, J, combo):
     a = dict(zip(J.names, combo))
     prod = 1.0
@@ -500,6 +513,9 @@ def check_model(case):
         if want is None:
             continue
         desc = f"query(variables={Q}, evidence={ev}, joint={joint})"
+        r = _bad_potential_names(bp, J)
+        if r:
+            return r
         try:
             got = bp.query(variables=list(Q), evidence=dict(ev) if ev else None, joint=joint, show_progress=False)
         except Exception as e:  # noqa
